@@ -347,6 +347,10 @@ func c12Recover(s1, s2, c1, c2 [32]byte) crypto.Key {
 
 func c12Gen(rng *core.Rng, tier string) *harness.Plan {
 	p := &harness.Plan{Seed: rng.Uint64(), Params: map[string]int64{}}
+	if rng.Chance(0.08) {
+		c12WireGen(rng, tier, p) // real nodes against an equivocating proposer, see c12wire.go
+		return p
+	}
 	tasks := 2 + rng.IntN(4)
 	nch := 1 + rng.IntN(3)
 	p.Params["tasks"], p.Params["challenges"] = int64(tasks), int64(nch)
@@ -363,6 +367,9 @@ func c12Gen(rng *core.Rng, tier string) *harness.Plan {
 }
 
 func c12Exec(p *harness.Plan) *harness.Outcome {
+	if p.P("wire", 0) == 1 {
+		return c12WireExec(p)
+	}
 	c := newCtx("C12")
 	var assign, choices []int
 	for _, op := range p.Ops {
